@@ -684,6 +684,9 @@ pub open spec fn is_idft(c: Seq<Fe>, points: Seq<Fe>, d: nat) -> bool {
     &&& c.len() == pow2(d)
     &&& forall|k: int| 0 <= k < pow2(d) ==> cong(fe_v(#[trigger] c[k]), esum(points, 0, 1, tw(false, d as int, inv_idx(pow2(d) as int, k)), pow2(d) as int) * fe_v(size_inv_spec(pow2(d) as usize)))
 }
+pub open spec fn interpolates(c: Seq<Fe>, points: Seq<Fe>, d: nat) -> bool {
+    forall|k: int| 0 <= k < pow2(d) ==> cong(psum(c, pow(rootv(d as int), k as nat), pow2(d) as int), fe_v(#[trigger] points[k]))
+}
 ''', 'interpret-eval-shims')
     u.item('src/polynomial.rs', ['fn poly_interpret_eval'], ret='r',
            rewrites=[(r'<F: NttFriendlyFieldElement>', '', 1), (r'points: &\[F\]', 'points: &Vec<Fe>', 1), (r'eval_at: F,', 'eval_at: Fe,', 1), (r'tmp_coeffs: &mut \[F\]', 'tmp_coeffs: &mut Vec<Fe>', 1),
@@ -697,7 +700,9 @@ requires
     points@.len() <= old(tmp_coeffs)@.len(),
 ensures
     // the value at eval_at of the polynomial whose coefficients are the inverse transform of `points`
-    forall|d: nat| points@.len() == pow2(d) ==> exists|c: Seq<Fe>| #[trigger] is_idft(c, points@, d) && cong(fe_v(r), psum(c, fe_v(eval_at), c.len() as int)),
+    forall|d: nat| points@.len() == pow2(d) ==> exists|c: Seq<Fe>| #[trigger] is_idft(c, points@, d) && cong(fe_v(r), psum(c, fe_v(eval_at), c.len() as int))
+        // ... and that polynomial (degree < n) INTERPOLATES the points at the powers of the root: P(root(d)^k) == points[k]
+        && interpolates(c, points@, d),
 ''', before=[('let size_inv', '''
     let dx = choose|dx: nat| 1 <= dx <= MAX_ROOTS && points@.len() == pow2(dx);
     lemma2_to64(); lemma_pow2_strictly_increases_or_eq(dx, 20); lemma_pow2_unfold(dx); lemma_pow2_pos((dx - 1) as nat);
@@ -723,10 +728,13 @@ ensures
         lemma_cong_trans(fe_v(c[k]), fe_v(t[j]) * fe_v(size_inv), e * fe_v(size_inv));
     }
     assert(is_idft(c, points@, d0));
+    theorem_idft_interpolates(points@, c, d0);
+    assert(interpolates(c, points@, d0));
 ''')], ghost_after=[('ntt(tmp_coeffs, points, points.len()).unwrap()', 'let ghost t = tmp_coeffs@;')],
            ghost_before=[('let size_inv', 'let ghost d0 = choose|d0: nat| 1 <= d0 <= MAX_ROOTS && points@.len() == pow2(d0);')])
     u.raw(ROOTPOW_LEMMAS, 'root-power-lemmas')
     u.raw(INVERSE, 'inverse-theorem')
+    u.raw(INTERP, 'interpolation-theorem')
     return u
 
 
@@ -1120,6 +1128,138 @@ proof fn theorem_inverse_undoes_forward(a: Seq<Fe>, big_a: Seq<Fe>, c: Seq<Fe>, 
         assert((inz(a, k) * n) * ninv == ak * (ninv * n)) by (nonlinear_arith) requires inz(a, k) == ak;
         assert(ak * 1 == ak);
         lemma_cong_trans(fe_v(c[k]), ak * (ninv * n), ak);
+    }
+}
+'''
+
+
+INTERP = '''
+// ---- the forward formula undoes the inverse one: the inverse-transform polynomial INTERPOLATES the points ------------------------
+// root(d)^(n*q + r) == root(d)^r
+proof fn lemma_root_reduce(d: nat, q: nat, r: nat)
+    requires d <= MAX_ROOTS
+    ensures cong(pow(rootv(d as int), pow2(d) * q + r), pow(rootv(d as int), r))
+{
+    let w = rootv(d as int); let n = pow2(d);
+    lemma_root_order(d);
+    lemma_pow_adds(w, n * q, r);
+    lemma_pow_multiplies(w, n, q);
+    lemma_cong_pow(pow(w, n), 1, q);
+    lemma_one_pow(q);
+    lemma_cong_refl(pow(w, r));
+    lemma_cong_mul(pow(w, n * q), 1, pow(w, r), pow(w, r));
+    assert(1 * pow(w, r) == pow(w, r));
+}
+// (w^(n-1))^i == w^(inv_idx(n, i))  : the points of the inverse formula are the powers of w^-1
+proof fn lemma_inv_points(d: nat, i: int)
+    requires d <= MAX_ROOTS, 0 <= i < pow2(d)
+    ensures cong(pow(rootv(d as int), inv_idx(pow2(d) as int, i) as nat), pow(pow(rootv(d as int), (pow2(d) - 1) as nat), i as nat))
+{
+    let w = rootv(d as int); let n = pow2(d);
+    lemma_pow2_pos(d);
+    lemma_pow_multiplies(w, (n - 1) as nat, i as nat);
+    if i == 0 { lemma_pow0(w); lemma_pow0(pow(w, (n - 1) as nat)); lemma_cong_refl(1); } else {
+        assert((n - 1) * i == n * (i - 1) + (n - i)) by (nonlinear_arith) requires i >= 1;
+        lemma_root_reduce(d, (i - 1) as nat, (n - i) as nat);
+        lemma_cong_sym(pow(w, ((n - 1) * i) as nat), pow(w, (n - i) as nat));
+    }
+}
+proof fn lemma_cong_outer_scaled(big_a: Seq<Fe>, a: Seq<Fe>, w: int, t: int, mm: int, n: int, s: int)
+    requires 0 <= n <= big_a.len(), forall|i: int| 0 <= i < n ==> cong(fe_v(#[trigger] big_a[i]), esum(a, 0, 1, pow(w, i as nat), mm) * s)
+    ensures cong(esum(big_a, 0, 1, t, n), dsum(a, w, t, mm, n) * s)
+    decreases n
+{
+    if n == 0 { lemma_cong_refl(0); assert(dsum(a, w, t, mm, 0) * s == 0) by (nonlinear_arith) requires dsum(a, w, t, mm, 0) == 0; } else {
+        lemma_cong_outer_scaled(big_a, a, w, t, mm, n - 1, s);
+        assert(0 + (n - 1) * 1 == n - 1);
+        assert(inz(big_a, n - 1) == fe_v(big_a[n - 1]));
+        let tk = pow(t, (n - 1) as nat);
+        let e = esum(a, 0, 1, pow(w, (n - 1) as nat), mm);
+        lemma_cong_refl(tk);
+        lemma_cong_mul(fe_v(big_a[n - 1]), e * s, tk, tk);
+        lemma_cong_add(esum(big_a, 0, 1, t, n - 1), dsum(a, w, t, mm, n - 1) * s, fe_v(big_a[n - 1]) * tk, (e * s) * tk);
+        assert(dsum(a, w, t, mm, n - 1) * s + (e * s) * tk == (dsum(a, w, t, mm, n - 1) + e * tk) * s) by (nonlinear_arith);
+    }
+}
+// with inner base w^(n-1) (the inverse points) and outer point w^k every column but the k-th vanishes
+proof fn lemma_gsum_select_fwd(a: Seq<Fe>, d: nat, k: int, mm: int)
+    requires d <= MAX_ROOTS, 0 <= k < pow2(d), 0 <= mm <= pow2(d)
+    ensures cong(gsum(a, pow(rootv(d as int), (pow2(d) - 1) as nat), pow(rootv(d as int), k as nat), mm, pow2(d) as int), if k < mm { inz(a, k) * (pow2(d) as int) } else { 0 })
+    decreases mm
+{
+    let n = pow2(d) as int; let w = rootv(d as int); let wi = pow(w, (n - 1) as nat); let t = pow(w, k as nat);
+    lemma_pow2_pos(d);
+    if mm == 0 { lemma_cong_refl(0); } else {
+        lemma_gsum_select_fwd(a, d, k, mm - 1);
+        let m = mm - 1;
+        let x = pow(wi, m as nat) * t;
+        lemma_pow_multiplies(w, (n - 1) as nat, m as nat);
+        lemma_pow_adds(w, ((n - 1) * m) as nat, k as nat);
+        let e = (n - 1) * m + k;
+        assert(e >= 0) by (nonlinear_arith) requires e == (n - 1) * m + k, n >= 1, m >= 0, k >= 0;
+        assert(x == pow(w, e as nat));
+        let c = inz(a, m);
+        lemma_cong_refl(c);
+        // e == n*q + e0 with e0 == (k - m) mod n
+        let q = if k >= m { m } else { m - 1 };
+        let e0 = if k >= m { k - m } else { n + k - m };
+        assert(e == n * q + e0) by (nonlinear_arith) requires e == (n - 1) * m + k, q == (if k >= m { m } else { m - 1 }), e0 == (if k >= m { k - m } else { n + k - m });
+        lemma_root_reduce(d, q as nat, e0 as nat);
+        lemma_cong_geo(x, pow(w, e0 as nat), n);
+        if m == k {
+            lemma_pow0(w);
+            lemma_geo_one(n);
+            lemma_cong_mul(c, c, geo(x, n), n);
+            lemma_cong_add(gsum(a, wi, t, mm - 1, n), 0, c * geo(x, n), c * n);
+        } else {
+            assert(0 < e0 < n);
+            lemma_orthogonal(d, e0);
+            lemma_cong_trans(geo(x, n), geo(pow(w, e0 as nat), n), 0);
+            lemma_cong_mul(c, c, geo(x, n), 0);
+            assert(c * 0 == 0);
+            let rest = if k < mm - 1 { inz(a, k) * n } else { 0 };
+            lemma_cong_add(gsum(a, wi, t, mm - 1, n), rest, c * geo(x, n), 0);
+        }
+    }
+}
+// psum (coefficient sequences) is esum with base 0 and stride 1
+proof fn lemma_psum_is_esum(c: Seq<Fe>, x: int, n: int)
+    requires 0 <= n <= c.len()
+    ensures psum(c, x, n) == esum(c, 0, 1, x, n)
+    decreases n
+{ if n > 0 { lemma_psum_is_esum(c, x, n - 1); assert(0 + (n - 1) * 1 == n - 1); } }
+// INTERPOLATION: the polynomial whose coefficients are the inverse transform of `points` takes the value points[k] at root(d)^k
+proof fn theorem_idft_interpolates(points: Seq<Fe>, c: Seq<Fe>, d: nat)
+    requires d <= MAX_ROOTS, points.len() == pow2(d), is_idft(c, points, d), pow2(d) <= usize::MAX,
+             cong(fe_v(size_inv_spec(pow2(d) as usize)) * (pow2(d) as int), 1),
+    ensures forall|k: int| 0 <= k < pow2(d) ==> cong(psum(c, pow(rootv(d as int), k as nat), pow2(d) as int), fe_v(#[trigger] points[k]))
+{
+    let n = pow2(d) as int; let w = rootv(d as int); let wi = pow(w, (n - 1) as nat); let ninv = fe_v(size_inv_spec(pow2(d) as usize));
+    lemma_pow2_pos(d);
+    assert forall|k: int| 0 <= k < n implies cong(psum(c, pow(w, k as nat), n), fe_v(#[trigger] points[k])) by {
+        let t = pow(w, k as nat);
+        lemma_psum_is_esum(c, t, n);
+        // c[i] == (sum_m points[m] * ((w^(n-1))^i)^m) * ninv
+        assert forall|i: int| 0 <= i < n implies cong(fe_v(#[trigger] c[i]), esum(points, 0, 1, pow(wi, i as nat), n) * ninv) by {
+            assert(tw(false, d as int, inv_idx(n, i)) == 1 * pow(w, inv_idx(n, i) as nat));
+            lemma_inv_points(d, i);
+            lemma_cong_esum(points, 0, 1, pow(w, inv_idx(n, i) as nat), pow(wi, i as nat), n);
+            lemma_cong_refl(ninv);
+            lemma_cong_mul(esum(points, 0, 1, pow(w, inv_idx(n, i) as nat), n), esum(points, 0, 1, pow(wi, i as nat), n), ninv, ninv);
+            lemma_cong_trans(fe_v(c[i]), esum(points, 0, 1, pow(w, inv_idx(n, i) as nat), n) * ninv, esum(points, 0, 1, pow(wi, i as nat), n) * ninv);
+        }
+        lemma_cong_outer_scaled(c, points, wi, t, n, n, ninv);
+        lemma_exchange(points, wi, t, n, n);
+        lemma_gsum_select_fwd(points, d, k, n);
+        let pk = fe_v(points[k]);
+        lemma_cong_refl(ninv);
+        lemma_cong_mul(gsum(points, wi, t, n, n), pk * n, ninv, ninv);
+        lemma_cong_trans(esum(c, 0, 1, t, n), gsum(points, wi, t, n, n) * ninv, (pk * n) * ninv);
+        lemma_cong_refl(pk);
+        lemma_cong_mul(pk, pk, ninv * n, 1);
+        assert((pk * n) * ninv == pk * (ninv * n)) by (nonlinear_arith);
+        assert(pk * 1 == pk);
+        lemma_cong_trans(esum(c, 0, 1, t, n), pk * (ninv * n), pk);
     }
 }
 '''
